@@ -23,7 +23,7 @@ for p in props:
             "evidence_file": f"evidence/{pid}.json",
             "replay_cmd_template": f"./check {pid} --replay {{path}}",
             "engine": "E1-crosshair",
-            "level_claimed": {"category": "other", "text": meta.get("MANIFEST_LEVEL", ""), "design_ref": f"DESIGN.md section 3, {pid}"},
+            "level_claimed": {"category": "other", "text": meta.get("MANIFEST_LEVEL", ""), "design_ref": f"DESIGN.md sections 0, 3 ({pid}) and 8"},
             "level_note": meta.get("MANIFEST_NOTE", ""),
             "technique": meta.get("MANIFEST_TECHNIQUE", "bounded symbolic execution of the real code (CrossHair/z3), solver verdict per condition"),
         })
